@@ -1347,4 +1347,51 @@ example : authStack b64decode
     = some ⟨false, 401, "basic realm=\"inner\"".toList, [(0, [("joe".toList, "pw:x".toList)]), (0, [("joe".toList, "pw:x".toList)]), (0, [])]⟩ := by
   decide
 
+
+/-! ## round 6: the whole request head — nothing but `Authorization` counts -/
+
+/-- a header line under another name does not change what is read under `name` -/
+theorem HReq.values_cons_ne (m : Str) (n v name : Str) (hs : List (Str × Str)) (h : n ≠ name) :
+    (⟨m, (n, v) :: hs⟩ : HReq).values name = (⟨m, hs⟩ : HReq).values name := by
+  simp [HReq.values, List.filter, h]
+
+/-- the method is not consulted -/
+theorem HReq.values_method (m m' : Str) (hs : List (Str × Str)) (name : Str) :
+    (⟨m, hs⟩ : HReq).values name = (⟨m', hs⟩ : HReq).values name := rfl
+
+/-- **C13_basic_req_only_authorization** — two requests with the same `Authorization` values are
+    treated alike, whatever their methods and their other headers (OPTIONS with
+    `Access-Control-Request-Method`, `Upgrade: websocket`, `X-Forwarded-User`, …). -/
+theorem C13_basic_req_only_authorization (skip : Bool) (V : Str → Str → Outcome) (dec : Str → Option Str)
+    (r r' : HReq) (h : r.values authorizationLit = r'.values authorizationLit) :
+    basicAuthReq skip V dec r = basicAuthReq skip V dec r' := by
+  simp [basicAuthReq, h]
+
+/-- **C13_basic_req_sound** — for EVERY request head: the handler ran ⇒ the Skipper stood the
+    middleware aside, or the validator said yes to the literally decoded credentials of the first
+    `Authorization` value, and was asked exactly that. -/
+theorem C13_basic_req_sound (skip : Bool) (V : Str → Str → Outcome) (dec : Str → Option Str) (r : HReq)
+    (o : BObs) (h : basicAuthReq skip V dec r = some o) (hr : o.ran = true) :
+    skip = true ∨ ∃ auth u p, (r.values authorizationLit).head? = some auth ∧ Guard auth ∧
+      dec (auth.drop 6) = some (u ++ ':' :: p) ∧ ':' ∉ u ∧ V u p = .yes ∧ o.calls = [(u, p)] := by
+  rcases C13_basic_mw_sound skip V dec _ o h hr with hs | ⟨auth, u, p, h1, h2, h3, h4, h5, h6, _⟩
+  · exact Or.inl hs
+  · exact Or.inr ⟨auth, u, p, h1, h2, h3, h4, h5, h6⟩
+
+/-- **C13_basic_req_no_bypass** — a request without an `Authorization` value is answered 401 with
+    the challenge and does not reach the handler, unless the configured Skipper says so: no method
+    and no other header opens a way past the validator. -/
+theorem C13_basic_req_no_bypass (V : Str → Str → Outcome) (dec : Str → Option Str) (r : HReq)
+    (h : r.values authorizationLit = []) : basicAuthReq false V dec r = some (unauthorized []) := by
+  simp [basicAuthReq, basicAuthMW, h, basicAuth, basicLit]
+
+-- a complete CORS preflight with credentials the validator refuses, and one without credentials
+example : basicAuthReq false vJoe b64decode ⟨"OPTIONS".toList,
+      [("Access-Control-Request-Method".toList, "GET".toList), ("Authorization".toList, "Basic Zm9vOmJhcg==".toList),
+       ("Origin".toList, "https://app.example.com".toList)]⟩
+    = some (unauthorized [("foo".toList, "bar".toList)]) := by decide
+example : basicAuthReq false vJoe b64decode ⟨"OPTIONS".toList,
+      [("Access-Control-Request-Method".toList, "GET".toList), ("Upgrade".toList, "websocket".toList)]⟩
+    = some (unauthorized []) := by decide
+
 end C13
